@@ -23,9 +23,11 @@ fn finish_from(r: &mut DecompressorOxide, buf: &mut Vec<u8>, z: &[u8], mut ipos:
     (st, out, ipos, r.adler32())
 }
 
-fn snapshots(ctx: &mut Ctx, z: &[u8], zlib: bool, expect_len: usize, seed: u64) {
+/// `every`: snapshot before EVERY call and feed one byte per call (every suspension point inside
+/// multi-byte fields: LEN/NLEN of a stored block, zlib header, trailer).
+fn snapshots(ctx: &mut Ctx, z: &[u8], zlib: bool, expect_len: usize, seed: u64, every: bool) {
     let id = ctx.id();
-    let replay = format!("SNAP fmt={} seed={} n={} data={}", zlib as u8, seed, expect_len, hex(z));
+    let replay = format!("{} fmt={} seed={} n={} data={}", if every { "SNAPE" } else { "SNAP" }, zlib as u8, seed, expect_len, hex(z));
     ctx.eval(fnv(z) ^ seed);
     let mut rng = crate::rng::Rng::new(seed);
     let ring = rng.chance(1, 2);
@@ -36,7 +38,7 @@ fn snapshots(ctx: &mut Ctx, z: &[u8], zlib: bool, expect_len: usize, seed: u64) 
     let (mut ipos, mut opos) = (0usize, 0usize);
     for step in 0..(4 * z.len() + 1000) {
         // snapshot here: clone and serialise, continue all three with the same schedule
-        if step < 12 || rng.chance(1, 8) {
+        if every || step < 12 || rng.chance(1, 8) {
             let cont_seed = rng.next();
             let mut r0 = r.clone(); let mut b0 = buf.clone();
             let base = finish_from(&mut r0, &mut b0, z, ipos, opos, flags, ring, cont_seed);
@@ -59,7 +61,7 @@ fn snapshots(ctx: &mut Ctx, z: &[u8], zlib: bool, expect_len: usize, seed: u64) 
             let (sid, _) = (r.verif_state().0, 0); ctx.count(&format!("snap_state_{}", sid));
         }
         let left = z.len() - ipos;
-        let chunk = match rng.below(3) { 0 => rng.range(0, 3).min(left), 1 => rng.range(0, 40).min(left), _ => left };
+        let chunk = if every { 1.min(left) } else { match rng.below(3) { 0 => rng.range(0, 3).min(left), 1 => rng.range(0, 40).min(left), _ => left } };
         let f = flags | if ipos + chunk < z.len() { TINFL_FLAG_HAS_MORE_INPUT } else { 0 };
         let grant = *rng.pick(&[usize::MAX, 0, 1, 2, 258, 4000]);
         let (s, c, w) = decompress_with_limit(&mut r, &z[ipos..ipos + chunk], &mut buf, opos, grant, f);
@@ -178,7 +180,7 @@ pub fn run(ctx: &mut Ctx) {
             let (tag, rest) = l.split_once(' ').unwrap_or((l.as_str(), ""));
             let kv = crate::kv(rest);
             match tag {
-                "SNAP" => snapshots(ctx, &crate::tx::unhex(&kv["data"]), kv["fmt"] == "1", kv["n"].parse().unwrap(), kv["seed"].parse().unwrap()),
+                "SNAP" | "SNAPE" => snapshots(ctx, &crate::tx::unhex(&kv["data"]), kv["fmt"] == "1", kv["n"].parse().unwrap(), kv["seed"].parse().unwrap(), tag == "SNAPE"),
                 "STSNAP" => state_snapshots(ctx, &crate::tx::unhex(&kv["in"]), kv["level"].parse().unwrap(), kv["fmt"] == "1", kv["seed"].parse().unwrap()),
                 "BOUND" => boundaries(ctx, &crate::tx::unhex(&kv["data"]), kv["fmt"] == "1", kv["n"].parse().unwrap()),
                 _ => {}
@@ -190,8 +192,27 @@ pub fn run(ctx: &mut Ctx) {
         let sc = gen_case(ctx, i % 5 == 4);
         let z = if i % 6 == 5 { crate::sgen::mutate(&mut ctx.rng, &sc.z).0 } else { sc.z.clone() };
         let seed = ctx.rng.next();
-        snapshots(ctx, &z, sc.zlib, sc.expect_len + if i % 6 == 5 { 70000 } else { 0 }, seed);
+        snapshots(ctx, &z, sc.zlib, sc.expect_len + if i % 6 == 5 { 70000 } else { 0 }, seed, false);
         if i % 6 != 5 { boundaries(ctx, &sc.z, sc.zlib, sc.expect_len); }
+    }
+    for i in 0..(12 * ctx.scale) {
+        // `stored_fields`: hand-made streams of short stored blocks with non-zero LEN (some after a
+        // few header bits of padding, some in zlib framing), one input byte per call and a snapshot
+        // before every call: every suspension point inside LEN / NLEN, the zlib header and the trailer
+        let zlib = i % 3 == 2;
+        let nblocks = ctx.rng.range(1, 5);
+        let mut body = vec![]; let mut plain = vec![];
+        for b in 0..nblocks {
+            let len = ctx.rng.range(1, 700);
+            let d = ctx.rng.bytes(len);
+            body.push(if b + 1 == nblocks { 1u8 } else { 0u8 });
+            body.extend_from_slice(&[(len & 255) as u8, (len >> 8) as u8, !(len & 255) as u8, !(len >> 8) as u8]);
+            body.extend_from_slice(&d); plain.extend_from_slice(&d);
+        }
+        let z = if zlib { let mut v = vec![0x78, 0x9c]; v.extend_from_slice(&body); v.extend_from_slice(&crate::sgen::adler32(&plain).to_be_bytes()); v } else { body };
+        let seed = ctx.rng.next();
+        ctx.count("stored_fields_streams");
+        snapshots(ctx, &z, zlib, plain.len(), seed, true);
     }
     for i in 0..(6 * ctx.scale) {
         // long-range redundancy: a noise period just under one window, repeated past two windows
